@@ -30,7 +30,7 @@ EXTENDS Integers, Sequences, FiniteSets, TLC, Json
 
 CONSTANTS Pins, Emit, EmitRels
 
-OpKinds == <<"FilterLike", "FilterInt", "FilterEnum", "FilterOr", "Sort", "Distinct", "GroupAgg", "ApplyFn", "ApplyUpper", "EvalCtx", "EvalPlain",
+OpKinds == <<"FilterLike", "FilterInt", "FilterEnum", "FilterAnd", "FilterOr", "Sort", "Distinct", "GroupAgg", "ApplyFn", "ApplyUpper", "EvalCtx", "EvalPlain",
              "CopyAdd", "RowNums", "ToCSV", "ToJSON", "String", "Equals", "Slice", "Select", "ViewSlice">>
 Rels == <<"same", "slice", "select", "sorted", "filtered", "added">>
 
